@@ -453,6 +453,14 @@ func TestC04Reuse(t *testing.T) {
 func checkC05(t *testing.T, sc *Scenario, rec *Recorder) []Diff {
 	ds, f := runAndCompare(t, sc, rec)
 	nt := false
+	if f.O != nil && f.O.Wire != nil {
+		// a UDP run is told apart from other runs to the same target by its source port alone (the IP IDs are the
+		// same in every run): probes sent from a port the process does not hold can be answered into another run,
+		// whose RTTs are then taken against its own send times
+		for _, pp := range f.O.Wire.PortProblems {
+			ds = append(ds, Diff{"C05", "rtt-against-another-runs-probe", "nothing keeps another run from being handed this run's source port, so replies to its probes would be timed against that run's send times: " + pp})
+		}
+	}
 	if !f.Failed {
 		delays := map[int64]bool{}
 		dup := false
